@@ -13,6 +13,12 @@ Inductive dialect := DSqlite | DPg.
 Inductive cmpop := CEq | CNe | CLt | CLe | CGt | CGe.
 Inductive binop := BAdd | BSub | BMul | BDiv | BMod | BConcat.
 
+(* Which of the three repairs proposed by this check (pending_fixes/C05-*.patch) the code under test carries.  The harness
+   determines the variant from the code itself on every run (rendered SQL text, behaviour of SQLite._abs_fn); the
+   theorems are stated for every variant: guarded + refuted for the shipped form, unguarded for the repaired form. *)
+Record variant := mkvariant { fix_maxmin : bool; fix_trimstr : bool; fix_abs_sign : bool }.
+Definition shipped : variant := mkvariant false false false.
+
 Inductive sqlexpr :=
 | QAtom (lit : bool) (text : string) (v : sval)       (* a column reference or a literal: renders as text, evaluates to v *)
 | QNullLit
@@ -138,6 +144,7 @@ Section Sem.
   Variable mf : string -> Q -> option Q.
   Variable mf2 : string -> Q -> Q -> option Q.
   Variable d : dialect.
+  Variable vr : variant.
 
   (* SQLite.py _wrap_scalar_fn / _wrap_numpy_fn: None, NaN and +-inf give NaN (stored as NULL) *)
   Definition wrap1 (v : sval) (f : Q -> option sval) : option sval :=
@@ -182,10 +189,19 @@ Section Sem.
       | _ => None end
     else match d with
     | DSqlite =>
-        if String.eqb name "ABS" then            (* _abs_fn *)
-          match vs with [v] => wrap1 v (fun q => Some (SNum (Qabs q))) | _ => None end
+        if String.eqb name "ABS" then            (* _abs_fn: shipped, None / NaN / +-inf give NaN; repaired, only None / NaN do *)
+          match vs with
+          | [v] => if fix_abs_sign vr then
+                     (if missing v then Some SNull else match as_x v with Some x => Some (of_x (xabs x)) | None => None end)
+                   else wrap1 v (fun q => Some (SNum (Qabs q)))
+          | _ => None end
         else if String.eqb name "SIGN" then      (* _sign_fn *)
-          match vs with [v] => wrap1 v (fun q => Some (SNum (Qsgn q))) | _ => None end
+          match vs with
+          | [v] => if fix_abs_sign vr then
+                     (if missing v then Some SNull
+                      else match v with SNum q => Some (SNum (Qsgn q)) | SPInf => Some (SNum 1) | SNInf => Some (SNum (-1)) | _ => None end)
+                   else wrap1 v (fun q => Some (SNum (Qsgn q)))
+          | _ => None end
         else if String.eqb name "FLOOR" then     (* _wrap_scalar_fn math.floor *)
           match vs with [v] => wrap1 v (fun q => Some (SNum (qfloor q))) | _ => None end
         else if String.eqb name "CEILING" then   (* _wrap_scalar_fn math.ceil *)
@@ -359,7 +375,9 @@ Definition all_lit (l : list sqlexpr) : bool := forallb (fun e => match e with Q
 
 (* data_algebra's own derived expression for around(): (x * 10.0 ** d).round() / 10.0 ** d, rendered through the
    generic branches; `d` is a literal *)
-Definition t_power10 (dg : sqlexpr) : sqlexpr := QFun "POWER" [lit_text "10.0" (SNum 10); dg].
+Definition t_power10 (dg : sqlexpr) : sqlexpr :=
+  if is_lit_with dg 1 then lit_text "10.0" (SNum 10)            (* _db_pow_expr: an exponent literally 1 gives the base *)
+  else QFun "POWER" [lit_text "10.0" (SNum 10); dg].
 
 Definition lookup_upper (m : string) : string :=
   match lookup m [("arccos","ARCCOS"); ("arccosh","ARCCOSH"); ("arcsin","ARCSIN"); ("arcsinh","ARCSINH"); ("arctan","ARCTAN");
@@ -367,7 +385,7 @@ Definition lookup_upper (m : string) : string :=
                   ("log10","LOG10"); ("log1p","LOG1P"); ("sin","SIN"); ("sinh","SINH"); ("sqrt","SQRT"); ("tanh","TANH")]%string
   with Some u => u | None => m end.
 
-Definition fmt (d : dialect) (m : string) (args : list sqlexpr) : option sqlexpr :=
+Definition fmt (vr : variant) (d : dialect) (m : string) (args : list sqlexpr) : option sqlexpr :=
   let inline2 (mk : sqlexpr -> sqlexpr -> sqlexpr) := match args with [a; b] => Some (mk a b) | _ => None end in
   let fn1 (name : string) := match args with [a] => Some (QFun name [a]) | _ => None end in
   (* generic branch of expr_to_sql for an inline operator of two arguments: a OP b *)
@@ -420,10 +438,12 @@ Definition fmt (d : dialect) (m : string) (args : list sqlexpr) : option sqlexpr
                  else if is_lit_with dg 0 then Some (QFun "ROUND" [a])
                  else Some (QParen (QBin BDiv (QFun "ROUND" [QBin BMul a (t_power10 dg)]) (t_power10 dg)))
     | _ => None end
-  else if String.eqb m "maximum" then inline2 (t_maxmin_ornull CGe)
-  else if String.eqb m "minimum" then inline2 (t_maxmin_ornull CLe)
-  else if String.eqb m "fmax" then inline2 (t_maxmin_plain CGe)
-  else if String.eqb m "fmin" then inline2 (t_maxmin_plain CLe)
+  (* shipped: maximum/minimum use the OR-IS-NULL form (which skips a NULL operand) and fmax/fmin the plain form (which
+     yields NULL); the repair exchanges them *)
+  else if String.eqb m "maximum" then inline2 ((if fix_maxmin vr then t_maxmin_plain else t_maxmin_ornull) CGe)
+  else if String.eqb m "minimum" then inline2 ((if fix_maxmin vr then t_maxmin_plain else t_maxmin_ornull) CLe)
+  else if String.eqb m "fmax" then inline2 ((if fix_maxmin vr then t_maxmin_ornull else t_maxmin_plain) CGe)
+  else if String.eqb m "fmin" then inline2 ((if fix_maxmin vr then t_maxmin_ornull else t_maxmin_plain) CLe)
   else if String.eqb m "if_else" then                                (* _db_if_else_expr *)
     match args with [c; x; y] => Some (QCase [(c, x); (QNot c, y)] QNullLit) | _ => None end
   else if String.eqb m "where" then                                  (* _db_where_expr *)
@@ -460,9 +480,11 @@ Definition fmt (d : dialect) (m : string) (args : list sqlexpr) : option sqlexpr
     | _ => None end
   else if String.eqb m "concat" then                                 (* _db_concat_expr: each argument through as_str() *)
     match args with [a; b] => Some (QParen (QBin BConcat (QCast a "VARCHAR") (QCast b "VARCHAR"))) | _ => None end
-  else if String.eqb m "trimstr" then                                (* _trimstr: SUBSTR(x, 1 + start, stop) *)
+  else if String.eqb m "trimstr" then       (* _trimstr: shipped SUBSTR(x, 1 + start, stop); repaired SUBSTR(x, 1 + start, stop - start) *)
     match args with
-    | [a; s; e] => if all_lit [s; e] then Some (QFun "SUBSTR" [a; QBin BAdd (lit_text "1" (SNum 1)) s; e]) else None
+    | [a; s; e] => if all_lit [s; e]
+                   then Some (QFun "SUBSTR" [a; QBin BAdd (lit_text "1" (SNum 1)) s; if fix_trimstr vr then QBin BSub e s else e])
+                   else None
     | _ => None end
   else if String.eqb m "as_int64" then
     match d, args with
@@ -521,7 +543,7 @@ Fixpoint atoms_from (d : dialect) (lits : list bool) (i : nat) (vs : list sval) 
   match vs with [] => [] | v :: t => QAtom (flag_at lits i) "" (enc d v) :: atoms_from d lits (S i) t end.
 (* dt = the dialect whose templates are used, de = the engine that evaluates them (they differ only when the harness
    executes PostgreSQL-dialect text on SQLite) *)
-Definition sql_eval_on (mf : string -> Q -> option Q) (mf2 : string -> Q -> Q -> option Q)
+Definition sql_eval_on (mf : string -> Q -> option Q) (mf2 : string -> Q -> Q -> option Q) (vr : variant)
            (dt de : dialect) (m : string) (lits : list bool) (vs : list sval) : option sval :=
-  match fmt dt m (atoms_from de lits 0 vs) with Some e => sem mf mf2 de e | None => None end.
-Definition sql_eval mf mf2 (d : dialect) := sql_eval_on mf mf2 d d.
+  match fmt vr dt m (atoms_from de lits 0 vs) with Some e => sem mf mf2 de vr e | None => None end.
+Definition sql_eval mf mf2 vr (d : dialect) := sql_eval_on mf mf2 vr d d.
